@@ -5,3 +5,24 @@ claim(
     "Bounded-exhaustive model checking of the ordering/bijection/enumerator model over a grid of (alleles, ploidy) instances and of Pascal rows in exact limb arithmetic, with conformance in both directions: each model state is executed on the real functions, and implementation calls on random large arguments are accepted or rejected by TLC.",
     "Trusts TLC/CommunityModules, Python big integers for limb conversion, and numba compiling the same source the interpreted run executes. Exhaustive only inside the stated grids; beyond them seeded sampling.",
 )
+claim(
+    "C01",
+    "DESIGN.md section 3, C01",
+    "TLA+ model of the assemble moves on unordered genotypes (AssembleMoves.tla: mutation, interval recombination, interval / full-length dosage swap; exact-rational detailed balance at two temperatures, novelty, distinctness, reversibility, irreducibility) model-checked with TLC; every reachable bag replayed in every row order into the compiled option functions and the interpreted base_step/interval_step kernels (probability vectors captured by replacing random_choice); complete recorded fits validated by TraceAssemble.tla",
+    "TLC visits every unordered genotype of each bounded (ploidy, SNVs, alleles) instance and proves, in exact rationals, that the modelled proposal structure and acceptance rule satisfy detailed balance for the tempered target; the conformance step shows that the real option lists, option counts, return counts, copy-count ratios and full transition probability vectors equal the model's for every ordered state, interval, move type and a set of real read sets / inbreeding / temperatures, checks detailed balance of the extracted real kernel directly, and validates whole sampler runs (temperature per rung, sweep completeness, exchange swapping matrices and carried likelihoods) event by event.",
+    "Trusts TLC, numba compiling the same source that interpreted mode executes (probability vectors are only observable interpreted), and the repository's likelihood/prior functions for the factors u(G) (subjects of C04/C05). Exhaustive inside the stated grids; continuous parameters are sampled.",
+)
+claim(
+    "C09",
+    "DESIGN.md section 3, C09",
+    "Faithful TLA+ model of the arraymap trie cache (ArrayMap.tla: node/value arrays, growth, flush) with a ghost abstract map, refinement invariants model-checked by TLC over all set histories; every generated edge replayed into the real arraymap comparing the whole stored structure; cache histories recorded from interpreted assemble / call / call-pedigree sampler runs validated by TraceCache.tla against the model with freshly recomputed likelihoods; same-seed trajectories with cache off / on / resized compared",
+    "Exhaustive refinement check of the cache data structure within small constants (including repeated growth and flushes) bound to the code in both directions, plus trace validation of what the three real samplers store, are served and carry (every stored / served / carried value compared with a from-scratch recomputation on that sample's own reads), and trajectory equality for the assemble cache.",
+    "Trusts TLC, numba compiling the interpreted source faithfully (cache histories are observed in interpreted mode; arraymap and trajectories also compiled), and log_likelihood as the reference for 'fresh' values. Sampler histories are sampled (seeded), the data-structure model is exhaustive within its constants.",
+)
+claim(
+    "C15",
+    "DESIGN.md section 3, C15",
+    "TLA+ models of the mutation sweep (Sweep.tla, incl. the element width of the sub-step table), random_breaks (Breaks.tla) and fixed-homozygous reinsertion (FixHom.tla) model-checked with TLC; every sweep behaviour / partition / probability table replayed into the real compound_step (interpreted recorder and compiled black box), random_breaks and DenovoMCMC._mcmc; recorded sweeps, breaks and interval steps of real fits validated by TraceBreaks.tla",
+    "Bounded-exhaustive model checking (every shuffle for small instances, SNV counts straddling the int8 boundary up to 300, every partition for n <= 8/11, every dyadic homozygosity table) with conformance in both directions; the compiled sweep is observed as a black box in which a never-visited cell is deterministically detectable.",
+    "Trusts TLC and numba compiling the interpreted source faithfully. random_breaks support equality uses a fixed number of seeded draws per (n, breaks). FixHom assumes a threshold above 1/2.",
+)
